@@ -283,6 +283,25 @@ def _cli_case(case, pt, d=None, cells=None):
             out.append({'key': 'C07:cli-file', 'what': '-f <PEL with severity 0x%02X flags 0x%04X> %s: shown=%r, rule says %s' % (
                 sev, flags, ' '.join(argv[2:]), shown, sel), 'case': case})
             break
+    # ... and what every other directory mode shows, with and without --hex (every fifth option set)
+    if w % 5 == 0 and not out:
+        for mode, hexm in (('-a', False), ('-l', False), ('-a', True), ('-l', True)):
+            argv = _argv(d, sw, sl, mode) + (['-x'] if hexm else [])
+            core.arm(60)
+            rm = clidrv.run_main(argv, isolate=False)
+            core.disarm()
+            try:
+                if hexm:
+                    blocks = clidrv.split_hex_blocks(rm.stdout)
+                    n = len(blocks) if blocks is not None else 'unreadable'
+                else:
+                    n = len(strictjson.loads(rm.stdout)) if rm.stdout.strip() else 0
+            except Exception as e:
+                n = 'unreadable (%s)' % e
+            if n != want:
+                out.append({'key': 'C07:cli-modes', 'what': 'options %s: %s%s shows %r PELs, rule says %d of %d' % (
+                    _argv('D', sw, sl, '-n')[3:], mode, ' -x' if hexm else '', n, want, len(cells)), 'case': case})
+                break
     if got != want:
         misc = [s for s, f in cells if 1 <= s <= 0xF]
         key = 'F6:severity-group-by-hex-string-prefix' if groups and misc and \
